@@ -492,6 +492,11 @@ func (t *Type) GetAttrOrNil(name string) Object {
 	if res, ok := t.Type().Dict[name]; ok {
 		return res
 	}
+	// Then along the MRO of the type, so that a method defined on
+	// a base class of an instance's class is found too
+	if res := t.Type().Lookup(name); res != nil {
+		return res
+	}
 	// Now look through base classes etc
 	return t.Lookup(name)
 }
